@@ -47,6 +47,7 @@ var finalScenarios = []finalScenario{
 	{"dynamic-queue-get-or-create", fsDynamicQueue},
 	{"recovery-queue-get-or-create", fsRecoveryQueue},
 	{"partition-asks-allocations", fsPartitionStorm},
+	{"node-collection-concurrent-updates", fsNodeCollection},
 }
 
 type finalResult struct {
@@ -744,4 +745,167 @@ func fsPartitionStorm(seed int64) *finalResult {
 	res.check(len(ugm.GetUserManager().GetUserTrackers()) == 0, "after removing every application %d user trackers are left", len(ugm.GetUserManager().GetUserTrackers()))
 	res.detail = fmt.Sprintf("%d rounds, 3 goroutines (scheduling loop / RM asks+releases / node capacity) on one partition", rounds)
 	return res
+}
+
+// ---------------------------------------------------------------------------------------------------- node collection
+
+// fsNodeCollection: a node collection with 8..16 nodes, once under the fair (utilisation) and once under the binpacking
+// policy. Three goroutines change the SAME node at the same instant, round after round: the scheduling goroutine adds an
+// allocation (TryAddAllocation), an RM handler removes an earlier one or adds one itself (RemoveAllocation / AddAllocation),
+// a node handler changes the capacity (SetCapacity); a fourth walks the iterators meanwhile — only operations that notify the collection (foreign allocations and
+// in-place resource updates do not: known finding C19.nodes-stale-after-unnotified-change). Every change notifies the
+// collection (NodeUpdated), which re-keys the node in its sorted tree. After the storm
+//
+//	(i)  the order in which GetFullNodeIterator / GetNodeIterator visit the nodes is the order implied by each node's
+//	     CURRENT state: ascending score of the collection's own policy recomputed now, ties by node id;
+//	(ii) every registered node is visited exactly once.
+func fsNodeCollection(seed int64) *finalResult {
+	res := &finalResult{}
+	nn := 8 + int(seed%9)
+	total := 0
+	for _, policy := range []string{"fair", "binpacking"} {
+		nc := objects.NewNodeCollection("[rm]default")
+		nc.SetNodeSortingPolicy(objects.NewNodeSortingPolicy(policy, nil))
+		nodes := make([]*objects.Node, nn)
+		for i := range nodes {
+			nodes[i] = objects.NewNode(&si.NodeInfo{NodeID: fmt.Sprintf("node-%02d", i), SchedulableResource: toSI(vm(4000+int64(i), 4000))})
+			if err := nc.AddNode(nodes[i]); err != nil {
+				res.check(false, "setup: %v", err)
+				return res
+			}
+		}
+		handoff := make([]chan string, nn)
+		for i := range handoff {
+			handoff[i] = make(chan string, 1<<16)
+		}
+		// the storm runs in chunks of nn rounds (every node is hit once per chunk by all three goroutines at the same
+		// instant); after every chunk everything is quiet and the order is compared: a stale key only survives until
+		// the node's next change, so the state is inspected between the changes
+		deadline := time.Now().Add(2 * time.Second)
+		chunks, base := 0, 0
+		badChunks := 0
+		for chunks < 600 && time.Now().Before(deadline) {
+			off := base
+			done := storm(4, nn, func(g, r int) {
+				r += off
+				i := r % nn // everybody works on the same node in a round
+				node := nodes[i]
+				amt := int64(1 + (r*7+13*g)%40)
+				switch g {
+				case 0: // scheduling goroutine
+					k := fmt.Sprintf("s-%d", r)
+					if node.TryAddAllocation(newAlloc(k, "app", node.NodeID, vm(amt, 1+amt%4), false, false, "")) {
+						handoff[i] <- k
+					}
+				case 1: // RM handler
+					if r%3 == 0 {
+						node.AddAllocation(newAlloc(fmt.Sprintf("rm-%d", r), "app", node.NodeID, vm(amt, amt), false, false, ""))
+					} else {
+						select {
+						case k := <-handoff[i]:
+							node.RemoveAllocation(k)
+						default:
+						}
+					}
+				case 2: // node handler
+					node.SetCapacity(vm(4000+int64(i)+int64(r%13)*10, 4000+int64(r%5)*10))
+				case 3: // a reader walking the nodes in order (what the scheduling cycle and the REST node list do)
+					cnt := 0
+					nc.GetFullNodeIterator().ForEachNode(func(*objects.Node) bool { cnt++; return cnt < 4 })
+					nc.GetNodeIterator().ForEachNode(func(*objects.Node) bool { return false })
+				}
+			})
+			base += done
+			chunks++
+			total += done
+			if !ncOrderOK(res, nc, nodes, policy, chunks, badChunks < 2) {
+				badChunks++
+			}
+		}
+		if badChunks > 2 {
+			res.check(false, "%s policy: the iteration order was wrong at %d of %d quiet points", policy, badChunks, chunks)
+		}
+	}
+	res.detail = fmt.Sprintf("%d nodes, fair and binpacking policy, %d rounds in all (order checked at a quiet point after every %d rounds), 3 goroutines (TryAdd / RM add+remove / capacity) changing the same node at the same instant plus a reader of the iterators", nn, total, nn)
+	return res
+}
+
+// ncOrderOK compares, at a quiet point, what the two iterators of the collection visit with the order implied by the
+// current state of the nodes (score of the collection's own policy recomputed now, ties by node id)
+func ncOrderOK(res *finalResult, nc objects.NodeCollection, nodes []*objects.Node, policy string, chunk int, report bool) bool {
+	nn := len(nodes)
+	nsp := nc.GetNodeSortingPolicy()
+	type scored struct {
+		id    string
+		score float64
+	}
+	want := make([]scored, 0, nn)
+	for _, n := range nodes {
+		want = append(want, scored{n.NodeID, nsp.ScoreNode(n)})
+	}
+	sort.Slice(want, func(a, b int) bool {
+		if want[a].score != want[b].score {
+			return want[a].score < want[b].score
+		}
+		return want[a].id < want[b].id
+	})
+	wantIDs := make([]string, len(want))
+	for i, w := range want {
+		wantIDs[i] = w.id
+	}
+	ok := true
+	for _, name := range []string{"GetFullNodeIterator", "GetNodeIterator"} {
+		it := nc.GetFullNodeIterator()
+		if name == "GetNodeIterator" {
+			it = nc.GetNodeIterator()
+		}
+		var got []string
+		seen := map[string]int{}
+		it.ForEachNode(func(n *objects.Node) bool {
+			got = append(got, n.NodeID)
+			seen[n.NodeID]++
+			return true
+		})
+		once := len(got) == nn
+		for _, n := range nodes {
+			if seen[n.NodeID] != 1 {
+				once = false
+			}
+		}
+		if !once {
+			ok = false
+			if report {
+				res.check(false, "%s policy, quiet point %d, %s: visits %v — not every one of the %d registered nodes exactly once", policy, chunk, name, got, nn)
+			}
+			continue
+		}
+		if strings.Join(got, ",") != strings.Join(wantIDs, ",") {
+			ok = false
+			if report {
+				first := ""
+				for i := range wantIDs {
+					if got[i] != wantIDs[i] {
+						first = fmt.Sprintf("position %d: iterator has %s, the current scores put %s (score %.6f) there", i, got[i], wantIDs[i], want[i].score)
+						break
+					}
+				}
+				res.check(false, "%s policy, quiet point %d, %s: iteration order does not follow the nodes' current %s: %s; iterator %v, expected %v", policy, chunk, name,
+					map[string]string{"fair": "utilisation", "binpacking": "free share"}[policy], first, got, wantIDs)
+			}
+		} else {
+			res.check(true, "")
+		}
+	}
+	return ok
+}
+
+func at(l []string, i int) string {
+	if i < len(l) {
+		return l[i]
+	}
+	return "nothing"
+}
+
+func vm(vcore, memory int64) *resources.Resource {
+	return resources.NewResourceFromMap(map[string]resources.Quantity{"vcore": resources.Quantity(vcore), "memory": resources.Quantity(memory)})
 }
